@@ -1981,12 +1981,12 @@ def c17_probe(repo_root, tier):
     else:
         bad = pr["violations"]
         _ob(obs, "liquid2/bounded.native-error-position-probe", not bad,
-            f"{pr['checked']} (text, index) pairs: _error_context reports the line and column the index lies on" if not bad
-            else f"_error_context({bad[0]['text']!r}, {bad[0]['index']}): {bad[0]['outcome']}",
+            f"{pr['checked']} checks: _error_context reports the line and column each index lies on; the tokens of the probe sources tile them and nest in order" if not bad
+            else f"{bad[0]['text']!r} @ {bad[0]['index']}: {bad[0]['outcome']}",
             witness=None if not bad else {"program": "from pyvc import probe_c17\nr = probe_c17.run()\nVIOLATES = bool(r['violations'])\nOBSERVED = str(r['violations'][:3])\n", "failing": bad[:5]},
             backend="bounded-native")
     return {"obligations": obs, "samples": [], "trusted": [], "functions": [], "assumptions": [],
-            "bounded": ["liquid2/bounded.native-error-position-probe: LiquidError._error_context against an independent line/column reference on a fixed set of texts, every index (pyvc/probe_c17.py); bounded, not counted as proved"]}
+            "bounded": ["liquid2/bounded.native-error-position-probe: LiquidError._error_context against an independent line/column reference on a fixed set of texts, every index; tiling and recursive nesting/order of the tokens of 10 fixed sources incl. interpolated template strings (pyvc/probe_c17.py); bounded, not counted as proved"]}
 
 
 
